@@ -59,7 +59,8 @@ def oracle(c):
                                 return ("absorb", k)
                             if (Mv[k] > lb) if strict else (Mv[k] >= lb):
                                 return ("split", k)
-                        else:               # vetoed: match tracking of the mode, then go on
+                        elif (Mv[k] > rho) if strict else (Mv[k] >= rho):
+                            # a vetoed category that passes the upper vigilance: match tracking of the mode, then go on
                             if mode == "MT+":
                                 rho = Mv[k] + eps
                             elif mode == "MT-":
